@@ -19,9 +19,10 @@ from .base import DEFAULT_STRICT
 
 class MatchCollectionType(Serializable):
     """The match collection type."""
-    _fields = ('CoreName', 'MatchIndex', 'Parameters')
+    _fields = ('CoreName', 'MatchIndex', 'Parameters', 'index')
     _required = ('CoreName', )
     _collections_tags = {'Parameters': {'array': False, 'child_tag': 'Parameter'}}
+    _set_as_attribute = ('index', )
     # descriptors
     CoreName = StringDescriptor(
         'CoreName', _required, strict=DEFAULT_STRICT,
@@ -33,12 +34,16 @@ class MatchCollectionType(Serializable):
     Parameters = ParametersDescriptor(
         'Parameters', _collections_tags, _required, strict=DEFAULT_STRICT,
         docstring='The match parameters.')  # type: ParametersCollection
+    index = IntegerDescriptor(
+        'index', _required, strict=DEFAULT_STRICT,
+        docstring='The (1 based) index of this match collection.')  # type: int
 
     def __init__(
             self,
             CoreName: str = None,
             MatchIndex: Optional[int] = None,
             Parameters: Union[None, ParametersCollection, Dict] = None,
+            index: Optional[int] = None,
             **kwargs):
         """
 
@@ -57,14 +62,16 @@ class MatchCollectionType(Serializable):
         self.CoreName = CoreName
         self.MatchIndex = MatchIndex
         self.Parameters = Parameters
+        self.index = index
         super(MatchCollectionType, self).__init__(**kwargs)
 
 
 class MatchType(Serializable):
     """The is an array element for match information."""
-    _fields = ('TypeID', 'CurrentIndex', 'NumMatchCollections', 'MatchCollections')
+    _fields = ('TypeID', 'CurrentIndex', 'NumMatchCollections', 'MatchCollections', 'index')
     _required = ('TypeID', 'NumMatchCollections')
     _collections_tags = {'MatchCollections': {'array': False, 'child_tag': 'MatchCollection'}}
+    _set_as_attribute = ('index', )
     # descriptors
     TypeID = StringDescriptor(
         'TypeID', _required, strict=DEFAULT_STRICT,
@@ -77,12 +84,16 @@ class MatchType(Serializable):
     MatchCollections = SerializableListDescriptor(
         'MatchCollections', MatchCollectionType, _collections_tags, _required, strict=DEFAULT_STRICT,
         docstring='The match collections.')  # type: Optional[List[MatchCollectionType]]
+    index = IntegerDescriptor(
+        'index', _required, strict=DEFAULT_STRICT,
+        docstring='The (1 based) index of this match type.')  # type: int
 
     def __init__(
             self,
             TypeID: str = None,
             CurrentIndex: Optional[int] = None,
             MatchCollections: Optional[List[MatchCollectionType]] = None,
+            index: Optional[int] = None,
             **kwargs):
         """
 
@@ -101,6 +112,7 @@ class MatchType(Serializable):
         self.TypeID = TypeID
         self.CurrentIndex = CurrentIndex
         self.MatchCollections = MatchCollections
+        self.index = index
         super(MatchType, self).__init__(**kwargs)
 
     @property
